@@ -2176,6 +2176,23 @@ def run(ctx):
                                    "example_steps / histogram")
 
 
+def mk_rule(I, params):
+    """Rebuild a rule object from its `export()` dictionary."""
+    R, P = I.rules, I.parser.parse_expr
+    n = params.get("name")
+    if n == "Linearity":
+        return R.Linearity()
+    if n == "SplitRegion":
+        return R.SplitRegion(P(params["c"]))
+    if n == "IntegrationByParts":
+        return R.IntegrationByParts(P(params["u"]), P(params["v"]))
+    if n == "Substitution":
+        return R.Substitution(params["var_name"], P(params["var_subst"]))
+    if n == "SubstitutionInverse":
+        return R.SubstitutionInverse(params["var_name"], P(params["var_subst"]))
+    return I.compstate.parse_rule(params)
+
+
 def replay_one(ctx, I, rp):
     """Re-run one recorded failing input through the same oracle."""
     E = I.expr
@@ -2202,7 +2219,7 @@ def replay_one(ctx, I, rp):
     elif k == "rule":
         with quiet():
             before = P(rp["before"])
-            rule = I.compstate.parse_rule(dict(rp["params"]))
+            rule = mk_rule(I, dict(rp["params"]))
         rule_case(ctx, I, rp["rule"], before, rule, rng)
     elif k == "example-step":
         files = [f for f in typed_example_files(ctx.repo) if f[0] == rp["file"]]
